@@ -73,6 +73,9 @@ pub fn boundary_txs(r: &mut Rng, heavy: bool) -> Vec<(String, Transaction)> {
         for ty in [RctType::Full, RctType::Simple, RctType::Bulletproof, RctType::Bulletproof2, RctType::Clsag, RctType::BulletproofPlus] { if ring <= 128 || ty == RctType::Clsag {
             v.push((format!("ring.rct{}.{}", gen::rct_num(ty), ring), gen::tx_of(r, &shape_of(2, 2, ring, 1, ty, false)))); } }
     }
+    // the extra field's length prefix at each varint width (1 / 2 / 3 bytes)
+    for el in [127usize, 128, 16383, 16384, 16385, 20000] { for (ver, ty) in [(1u64, RctType::Null), (2, RctType::Clsag)] {
+        let mut s = shape_of(ver, 1, 2, 1, ty, false); s.extra_len = el; let mut tx = gen::tx_of(r, &s); tx.prefix.extra = RawExtraField(r.bytes(el)); v.push((format!("extra.v{}.{}", ver, el), tx)); } }
     for nout in [127usize, 128] {
         v.push((format!("outputs.v1.{}", nout), gen::tx_of(r, &shape_of(1, 1, 1, nout, RctType::Null, false))));
         for ty in [RctType::Null, RctType::Bulletproof, RctType::Bulletproof2, RctType::Clsag, RctType::BulletproofPlus] { v.push((format!("outputs.rct{}.{}", gen::rct_num(ty), nout), gen::tx_of(r, &shape_of(2, 1, 1, nout, ty, false)))); }
